@@ -184,6 +184,17 @@ theorem failed_store (nc : NodeCfg) (hc : PersistCfg nc.store) (t0 : Int) (fs0 :
       obtain ⟨r, hr, hper, hd⟩ := hi.2 id c hf (of_decide_eq_false hm)
       exact Or.inl ⟨r, hr, hper, by rw [hd]⟩
 
+/-- **C04.store_persists.**  A store during which no file-system call fails marks the record
+    persisted; together with the first half of `inv` this is the positive clause "a chunk's file
+    exists while the chunk is live and holds exactly the stored bytes": the record of a successfully
+    stored chunk stays in the table until a sweep at or after its deadline (C01), and as long as it
+    is there its file is present with exactly its bytes and no wipe is owed for it — in particular
+    a retry of an earlier failed wipe of the same path never hits the new file. -/
+theorem store_persists (cfg : Cfg) (hp : cfg.persistent = true) (s : Recs) (fs : FS) (pend : List Name)
+    (id : String) (data : Bytes) : (putF cfg [] s fs pend id data).persisted = true := by
+  simp only [putF, hp, if_true, persistF, faultAt_nil]
+  split <;> rfl
+
 /-- **C04.crash_recovery.**  Crash at the `k`-th file-system operation of any operation `o` after
     any history (including failed stores and wipes), then any number of start-up attempts that
     themselves crash after `ks[i]` operations, then one start-up that completes without I/O error:
